@@ -49,6 +49,7 @@ type Engine struct {
 	noopPrefix []string
 	initStores map[*ssa.Global]bool
 
+	fnInfos  sync.Map // *ssa.Function -> *funcInfo
 	mu       sync.Mutex
 	execFns  map[*ssa.Function]int
 	modelFns map[string]int
@@ -391,6 +392,14 @@ func (e *Engine) Explore(h *Harness, opt Options) *Result {
 					res.Violations = append(res.Violations, v)
 				}
 			}
+			e.mu.Lock()
+			for f, n := range p.execFns {
+				e.execFns[f] += n
+			}
+			for f, n := range p.modelFns {
+				e.modelFns[f.String()] += n
+			}
+			e.mu.Unlock()
 			for k, n := range p.reach {
 				res.Reach[k] += n
 			}
@@ -452,7 +461,8 @@ func (e *Engine) runPath(h *Harness, solver *smt.Solver, prefix []Decision, opt 
 	p := &Path{eng: e, h: h, solver: solver, st: smt.NewStore(), prefix: prefix,
 		globals: map[*ssa.Global]*value{}, inited: map[*ssa.Package]bool{}, locks: map[*value]*lockState{},
 		unwind: map[ssa.Instruction]int{}, unwindBound: opt.UnwindBound, stepBudget: opt.StepBudget,
-		sideTable: map[string]interface{}{}, reach: map[string]int{}, asserts: map[string]int{}, clock: 1_600_000_000}
+		sideTable: map[string]interface{}{}, reach: map[string]int{}, asserts: map[string]int{}, clock: 1_600_000_000,
+		execFns: map[*ssa.Function]int{}, modelFns: map[*ssa.Function]int{}}
 	out = &pathOutcome{Path: p, status: "completed"}
 	solver.Reset()
 	defer func() {
@@ -569,3 +579,45 @@ func (e *Engine) globalModel(p *Path, g *ssa.Global) (value, bool) {
 }
 
 var globalModels = map[string]func(e *Engine) value{}
+
+
+// funcInfo caches per-function data shared by all paths: value numbering and the model (if any).
+type funcInfo struct {
+	idx   map[ssa.Value]int
+	n     int
+	model modelFn
+}
+
+func (e *Engine) funcInfo(fn *ssa.Function) *funcInfo {
+	if v, ok := e.fnInfos.Load(fn); ok {
+		return v.(*funcInfo)
+	}
+	info := &funcInfo{idx: map[ssa.Value]int{}}
+	add := func(v ssa.Value) {
+		if _, ok := info.idx[v]; !ok {
+			info.idx[v] = info.n
+			info.n++
+		}
+	}
+	for _, p := range fn.Params {
+		add(p)
+	}
+	for _, fv := range fn.FreeVars {
+		add(fv)
+	}
+	for _, l := range fn.Locals {
+		add(l)
+	}
+	for _, b := range fn.Blocks {
+		for _, in := range b.Instrs {
+			if v, ok := in.(ssa.Value); ok {
+				add(v)
+			}
+		}
+	}
+	if fn.Parent() == nil {
+		info.model = e.modelFor(fn)
+	}
+	v, _ := e.fnInfos.LoadOrStore(fn, info)
+	return v.(*funcInfo)
+}
